@@ -16,7 +16,7 @@
 //!                             until it returns 0); hdrtab = one digit per number j of header-container
 //!                             body bytes present (0 accepted, 1 UnexpectedEof, 2 InvalidData: what the
 //!                             real header-body decoder says) -> "<H|h>:<len/nrec/nlandmarks+..|_>:<stop>"
-//!   gzi    hex cuts           gzi index -> "Err" | "Ok:<c>-<u>,.."
+//!   gzi    hex cuts           gzi index (also with bytes behind it) -> "Err:<ErrorKind>" | "Ok:<c>-<u>,.."
 //!   textz  fmt hex hdr table rejected cuts   bgzipped VCF / SAM text (fmt = vcf | sam) read through
 //!                             record_bufs; hdr = length of the header text; rejected = the partial lines
 //!                             the real record parser refuses, "<line hex>:<1|2>;.." (1 UnexpectedEof, 2
@@ -37,6 +37,11 @@
 //!   cramb  prefix header body landmarks cuts   one CRAM data container, its body cut to j bytes (header
 //!                             rewritten with length j + fresh CRC32), read by compression_header / slices /
 //!                             decode_blocks -> "<ok|Err:k>/<external block counts|_>/<Eof|Err:k>"
+//!   craigz file               a .crai FILE (one gzip member: written by crai::io::Writer, or hand-assembled
+//!                             around a crai text with FEXTRA / FNAME / FCOMMENT / FHCRC fields, stored / fixed /
+//!                             dynamic DEFLATE blocks, optionally bytes behind the member), read by
+//!                             crai::io::Reader at EVERY cut -> "X<1|0>" (flate2 consumes the whole file: it is
+//!                             exactly one member) then per cut "E:<ErrorKind>" | "Ok:<canonical index>"
 //! `cuts` is `all` (every offset 0..=len) or a comma list.  These kinds also carry the L3 verdict.
 //!
 //! Implementation-only oracle:
@@ -1181,7 +1186,7 @@ fn run_gzi(c: &Case) -> Obs {
         toks.push(match &r {
             Ok(s) => format!("Ok:{s}"),
             Err(Stop::Panic(_)) => "Panic".to_string(),
-            Err(_) => "Err".to_string(),
+            Err(s) => s.text(),
         });
         n_err += r.is_err() as usize;
         match (&r, &intact) {
@@ -1255,8 +1260,9 @@ fn check_idx_cut(kind: &str, k: usize, full: bool, mid_line: bool, got: &index::
                     Err(("text-truncated-final-line-accepted-fai".to_string(), format!("cut {k}: last record {}, written {}", g[g.len() - 1], o[g.len() - 1])))
                 } else {
                     // crai: this is the text INSIDE the gzip member; a cut of the crai file itself is a
-                    // gzip error (kind `file crai`), so the payload-level acceptance is not reachable
-                    // by truncating a written file
+                    // gzip error (modelled kind `craigz`, theorem c13_crai_file_truncation; also the
+                    // `file crai` oracle), so the payload-level acceptance is not reachable by
+                    // truncating a written file
                     Ok(())
                 }
             } else {
@@ -2653,6 +2659,64 @@ fn run_file(c: &Case) -> Obs {
 
 // ---------------------------------------------------------------------------------------------
 
+/// one read of a crai FILE prefix: canonical index | error kind | panic
+fn read_crai_file(p: &[u8]) -> Result<String, String> {
+    match nv::guarded(AssertUnwindSafe(|| cram::crai::io::Reader::new(p).read_index())) {
+        nv::Outcome::Done(Ok(i)) => Ok(index::fmt_crai(&i)),
+        nv::Outcome::Done(Err(e)) => Err(nv::errkind(&e)),
+        nv::Outcome::Panicked(m) => Err(format!("Panic {m}")),
+    }
+}
+
+/// kind craigz: every cut of a .crai file (the gzip container included)
+fn run_craigz(c: &Case) -> Obs {
+    let file = Arc::new(c.b(0));
+    let cuts: Vec<usize> = (0..=file.len()).collect();
+    let member = files::gz_member_len(&file);
+    let exact = member == Some(file.len());
+    let intact = read_crai_file(&file);
+    let mut toks = vec![format!("X{}", exact as u8)];
+    let mut fails = Vec::new();
+    let mut n_err = 0;
+    if intact.is_err() {
+        fails.push(("crai-intact-file-unreadable".to_string(), String::new()));
+    }
+    for (k, r) in sweep(&file, &cuts, read_crai_file) {
+        let Some(r) = r else {
+            toks.push("Hang".to_string());
+            fails.push(hang("craigz", k));
+            break;
+        };
+        match &r {
+            Ok(s) => {
+                toks.push(format!("Ok:{s}"));
+                // an index is returned only when the whole member is present, and it is the written one
+                if let (Some(m), Ok(orig)) = (member, &intact) {
+                    if k < m {
+                        fails.push(("crai-file-truncation-accepted".to_string(), format!("cut {k} of {} (member ends at {m}): an index is returned without error", file.len())));
+                    } else if s != orig {
+                        fails.push(("crai-file-bytes-behind-member-change-index".to_string(), format!("cut {k}")));
+                    }
+                }
+            }
+            Err(e) if e.starts_with("Panic") => {
+                toks.push("Panic".to_string());
+                fails.push(("panic-craigz".to_string(), format!("cut {k}: {e}")));
+            }
+            Err(e) => {
+                toks.push(format!("E:{e}"));
+                n_err += 1;
+                if let (Some(m), Ok(_)) = (member, &intact) {
+                    if k >= m {
+                        fails.push(("crai-file-complete-member-refused".to_string(), format!("cut {k} of {} (member ends at {m}): {e}", file.len())));
+                    }
+                }
+            }
+        }
+    }
+    Obs { obs: toks.join(" "), verdict: "ok".into(), nontrivial: intact.is_ok() && n_err > 0 }.with_verdict(first_fail(fails))
+}
+
 fn run(c: &Case) -> Obs {
     match c.kind.as_str() {
         "bamraw" | "bcfraw" => run_raw(&c.kind, c),
@@ -2674,6 +2738,7 @@ fn run(c: &Case) -> Obs {
         "bamhf" | "bcfhf" | "bamhz" | "bcfhz" => run_hfile(c),
         "samth" | "vcfth" | "samthz" | "vcfthz" => run_thfile(c),
         "cramb" => run_cramb(c),
+        "craigz" => run_craigz(c),
         "atwin" => run_atwin(c),
         _ => Obs { obs: "-".into(), verdict: "skip".into(), nontrivial: false },
     }
@@ -2844,6 +2909,13 @@ fn generate(rng: &mut Rng, tier: &str, w: &mut CaseWriter) {
         let file = files::gzi_file(rng);
         w.push("gzi", vec![hex(&file), "all".into()]);
     }
+    // a written gzi followed by bytes (InvalidData: trailing data; model comparison and no-panic only)
+    for _ in 0..(2 * scale) {
+        let mut file = files::gzi_file(rng);
+        let l = rng.range(1, 20) as usize;
+        file.extend(rng.bytes(l));
+        w.push("gzi", vec![hex(&file), "all".into()]);
+    }
 
     // --- modelled: CSI / tabix: every cut of the uncompressed payload, and every cut of a BGZF
     // file holding it (the written file, or the payload recompressed with arbitrary block breaks)
@@ -2873,6 +2945,34 @@ fn generate(rng: &mut Rng, tier: &str, w: &mut CaseWriter) {
         w.push("fai", vec![hex(&text), "all".into()]);
         let text = index::gunzip(&files::crai_file(rng));
         w.push("crai", vec![hex(&text), "all".into()]);
+    }
+
+    // --- modelled: the crai FILE (gzip container included), every cut
+    for i in 0..(5 * scale) {
+        // written by crai::io::Writer; every 5th a longer index (a dynamic Huffman block)
+        let n = if i % 5 == 4 { rng.range(20, 45) } else { rng.range(0, 6) };
+        w.push("craigz", vec![hex(&files::crai_file_n(rng, n))]);
+    }
+    for i in 0..(6 * scale) {
+        // the text of a written index inside a hand-assembled member
+        let n = if i % 6 == 5 { rng.range(15, 30) } else { rng.range(0, 5) };
+        let text = index::gunzip(&files::crai_file_n(rng, n));
+        let field = |rng: &mut Rng, max: u64| -> Option<Vec<u8>> {
+            if rng.chance(1, 2) { let l = rng.range(0, max) as usize; Some(rng.bytes(l)) } else { None }
+        };
+        let o = files::GzOpts {
+            extra: field(rng, 12),
+            name: field(rng, 10),
+            comment: field(rng, 10),
+            hcrc: rng.chance(1, 2),
+            ftext: rng.chance(1, 4),
+            level: *rng.pick(&[0u32, 0, 1, 6, 9]),
+            mtime: rng.below(1 << 32) as u32,
+            xfl: *rng.pick(&[0u8, 2, 4]),
+            os: *rng.pick(&[255u8, 3, 0]),
+            garbage: if rng.chance(1, 4) { let l = rng.range(1, 12) as usize; rng.bytes(l) } else { Vec::new() },
+        };
+        w.push("craigz", vec![hex(&files::gz_member(&text, &o))]);
     }
 
     // --- modelled: whole BAM / BCF files incl. their header (raw and BGZF with block breaks at
